@@ -52,7 +52,11 @@ POOL: List[str] = [
     P + "int 1\ngtxns Fee\nint 1000\n<=\nassert\ntxn GroupIndex\ngtxns RekeyTo\n" + Z + "\n==\nassert\nint 0\ngtxns Sender\ntxn Sender\n==\nreturn\n",
     # 7: two subroutines called from a loop
     P + "l:\ncallsub x\ntxn FirstValid\nint 7\n>\nbnz l\ncallsub y\nint 1\nreturn\nx:\ntxn AssetCloseTo\n" + Z + "\n==\nassert\nretsub\ny:\ncallsub x\nretsub\n",
+    # 9: multi-way branches (successor order must follow the label list, not a set of names)
+    P + "txn FirstValid\nswitch zeta alpha mid\ntxn RekeyTo\n" + Z + "\n==\nassert\nint 1\nreturn\nzeta:\nint 1\nint 2\ntxn LastValid\nmatch q_b q_a\n"
+        "int 1\nreturn\nalpha:\ntxn Fee\nint 1000\n<=\nreturn\nmid:\nint 1\nreturn\nq_a:\nint 1\nreturn\nq_b:\ntxn RekeyTo\n" + Z + "\n==\nreturn\n",
 ]
+ALWAYS = [9]  # pool members that take part in the per-contract items of the quick tier too
 DETS = ("rekey-to", "can-close-account", "can-close-asset", "missing-fee-check", "is-updatable", "is-deletable",
         "unprotected-updatable", "unprotected-deletable", "group-size-check", "constant-gtxn", "sender-access", "self-access")
 
@@ -224,12 +228,13 @@ def items(tier: str) -> List[Any]:
             out.append(("detorder", contract, [a, b]))
         for d in DETS:
             out.append(("detorder", contract, [d, d]))
-    for contract in range(k):
+    per_contract = sorted(set(range(k)) | set(ALWAYS))
+    for contract in per_contract:
         for which in ("forward", "backward", "called_subroutines"):
             for pi in range(0, 120 if tier != "quick" else 24):
                 out.append(("iterorder", contract, which, pi))
-    for contract in range(k):
-        for hs in (0, 1, 2, 3, "seed"):
+    for contract in per_contract:
+        for hs in (0, 1, 2, 3, 4, 5, 6, 7, "seed"):
             out.append(("hashseed", contract, hs))
     # several contracts inside ONE Tealer (group configuration): every order of every pair, some triples
     n = len(POOL)
